@@ -187,16 +187,26 @@ Section Proofs.
     - intros [j [Hj H]]. exists j. split; [apply in_seq; lia | exact H].
   Qed.
 
-  Lemma ok_timely_intro p0 states (aw : list traj) o :
+  Lemma ok_timely_intro p0 (lib : bool) states (aw : list traj) o :
     (forall k, k <= horizon aw ->
        sat seqb final states aw k = true -> sat seqb final states aw (S k) = true ->
        ret_by o (S k) = true) ->
     (forall k, k <= S (horizon aw) ->
        (forall tr, In tr aw -> exists j, p0 <= j <= k /\ sat1 states tr j = true) ->
        ret_by o (S k) = true) ->
-    ok_timely seqb final p0 states aw o = true.
+    (lib = true -> forall k, k <= S (horizon aw) ->
+       (forall tr, In tr aw -> exists j, p0 <= j <= k /\
+          passed seqb final value states (at_ tr j) = true) ->
+       ret_by o (S k) = true) ->
+    ok_timely seqb final value p0 lib states aw o = true.
   Proof.
-    intros H G. unfold ok_timely. apply andb_true_iff. split.
+    intros H G L. unfold ok_timely. apply andb_true_iff. split; [apply andb_true_iff; split|].
+    3: { destruct lib; [|reflexivity]. unfold ok_timely_reached. apply forallb_forall.
+         intros k Hk. apply in_seq in Hk.
+         destruct (forallb (fun tr => passed_by seqb final value p0 states tr k) aw) eqn:E; [|reflexivity].
+         simpl. apply (L eq_refl); [lia|]. intros tr Htr.
+         rewrite forallb_forall in E. specialize (E tr Htr). unfold passed_by in E.
+         apply existsb_exists in E as [j [Hj E]]. apply in_seq in Hj. exists j. split; [lia | exact E]. }
     - unfold ok_timely_all. apply forallb_forall. intros k Hk. apply in_seq in Hk.
       destruct (sat seqb final states aw k) eqn:H1; [|reflexivity].
       destruct (sat seqb final states aw (S k)) eqn:H2; [|reflexivity].
@@ -219,21 +229,22 @@ Section Proofs.
   Theorem entity_clauses r T term fuel (tr : traj) :
     horizon [tr] + 2 <= fuel ->
     (forall t0, T = Some t0 -> t0 + 2 <= fuel) ->
-    clauses seqb final value 0 false (norm final r) T term (Some [tr])
+    clauses seqb final value 0 false false (norm final r) T term (Some [tr])
             (entity_wait r T term fuel tr) = [true; true; true; true; true].
   Proof.
     intros Hfuel HT. unfold clauses.
     assert (E1 : ok_truthful seqb false [tr] (entity_wait r T term fuel tr) = true).
     { destruct (entity_shape r T term fuel tr) as [H | [t H]]; rewrite H; [reflexivity|].
       simpl. apply seqb_refl. }
-    assert (E2 : ok_timely seqb final 0 (norm final r) [tr] (entity_wait r T term fuel tr) = true).
+    assert (E2 : ok_timely seqb final value 0 false (norm final r) [tr] (entity_wait r T term fuel tr) = true).
     { apply ok_timely_intro.
       - intros k Hk Hs _. unfold sat in Hs. simpl in Hs. rewrite andb_true_r in Hs.
         destruct (entity_returns_by r T term fuel tr k) as [t [Ht H]]; [lia | exact Hs |].
         rewrite H. simpl. apply Nat.leb_le. lia.
       - intros k Hk Hall. destruct (Hall tr (or_introl eq_refl)) as [j [Hj Hs]].
         destruct (entity_returns_by r T term fuel tr j) as [t [Ht H]]; [simpl in *; lia | exact Hs |].
-        rewrite H. simpl. apply Nat.leb_le. lia. }
+        rewrite H. simpl. apply Nat.leb_le. lia.
+      - discriminate. }
     assert (E3 : ok_timeout T (entity_wait r T term fuel tr) = true).
     { unfold ok_timeout. destruct T as [[|t0]|]; try reflexivity.
       destruct (entity_timeout r term fuel tr t0) as [t [Ht H]].
@@ -371,6 +382,22 @@ Section Proofs.
     destruct (is_final (at_ tr k)) eqn:Hfi; [reflexivity|]. simpl.
     rewrite orb_false_r in Hs. apply mem_In in Hs.
     apply Z.ltb_ge. apply fold_min_le. exact Hs.
+  Qed.
+
+  (* a task that has reached (passed) a requested state is dropped from the watch list *)
+  Lemma wt_keep_false_of_passed states v (tr : traj) k :
+    check_val final value states = Some v ->
+    passed seqb final value states (at_ tr k) = true ->
+    wt_keep v k tr = false.
+  Proof.
+    intros Hv Hp. unfold passed in Hp.
+    apply orb_true_iff in Hp as [Hp | Hp].
+    - apply (wt_keep_false_of_sat _ _ _ _ Hv). rewrite orb_comm. exact Hp.
+    - apply existsb_exists in Hp as [q [Hq Hle]]. apply Z.leb_le in Hle.
+      unfold check_val in Hv. unfold Model.wt_keep.
+      destruct (rev final) as [|f fs]; [discriminate|]. injection Hv as <-.
+      destruct (is_final (at_ tr k)); [reflexivity|]. simpl.
+      apply Z.ltb_ge. pose proof (fold_min_le states (value f) q Hq). lia.
   Qed.
 
   Lemma reached_of_wt_keep_false states v (tr : traj) j t :
@@ -551,7 +578,7 @@ Section Proofs.
   Proof. unfold sat. rewrite forallb_forall. auto. Qed.
 
   (* the common part: from facts about the loop to the oracle clauses *)
-  Lemma manager_clauses (p0 : nat) (lst : bool) states T term (aw : list traj) (lr : option nat) :
+  Lemma manager_clauses (p0 : nat) (lib lst : bool) states T term (aw : list traj) (lr : option nat) :
     (lst = false -> exists tr, aw = [tr]) ->
     (forall k, k <= horizon aw ->
        sat seqb final states aw k = true -> sat seqb final states aw (S k) = true ->
@@ -559,15 +586,19 @@ Section Proofs.
     (forall k, k <= S (horizon aw) ->
        (forall tr, In tr aw -> exists j, p0 <= j <= k /\ sat1 states tr j = true) ->
        exists t, t <= S k /\ lr = Some t) ->
+    (lib = true -> forall k, k <= S (horizon aw) ->
+       (forall tr, In tr aw -> exists j, p0 <= j <= k /\
+          passed seqb final value states (at_ tr j) = true) ->
+       exists t, t <= S k /\ lr = Some t) ->
     (forall t0, T = Some (S t0) -> exists t, t <= S (S t0) /\ lr = Some t) ->
     (forall t, lr = Some t ->
        term_set term t = true \/ timed_out T t = true \/
        forall tr, In tr aw -> reached seqb final value states tr t = true) ->
-    clauses seqb final value p0 lst states T term (Some aw)
+    clauses seqb final value p0 lib lst states T term (Some aw)
       (match lr with None => Spins | Some c => ret_states lst (states_at c aw) c end)
     = [true; true; true; true; true].
   Proof.
-    intros Hone F1 F1b F2 F3.
+    intros Hone F1 F1b F1c F2 F3.
     assert (Hret : forall c, exists v,
                ret_states lst (states_at c aw) c = Returned v c /\
                ok_truthful seqb lst aw (Returned v c) = true).
@@ -578,12 +609,14 @@ Section Proofs.
     unfold clauses.
     destruct lr as [c|].
     - destruct (Hret c) as [v [Hv Htr]]. rewrite Hv, Htr.
-      assert (E2 : ok_timely seqb final p0 states aw (Returned v c) = true).
+      assert (E2 : ok_timely seqb final value p0 lib states aw (Returned v c) = true).
       { apply ok_timely_intro.
         - intros k Hk H1 H2.
           destruct (F1 k Hk H1 H2) as [t [Ht E]]. injection E as <-. simpl. apply Nat.leb_le. exact Ht.
         - intros k Hk Hall.
-          destruct (F1b k Hk Hall) as [t [Ht E]]. injection E as <-. simpl. apply Nat.leb_le. exact Ht. }
+          destruct (F1b k Hk Hall) as [t [Ht E]]. injection E as <-. simpl. apply Nat.leb_le. exact Ht.
+        - intros Hl k Hk Hall.
+          destruct (F1c Hl k Hk Hall) as [t [Ht E]]. injection E as <-. simpl. apply Nat.leb_le. exact Ht. }
       assert (E3 : ok_timeout T (Returned v c) = true).
       { unfold ok_timeout. destruct T as [[|t0]|]; try reflexivity.
         destruct (F2 t0 eq_refl) as [t [Ht E]]. injection E as <-. simpl ret_by.
@@ -594,10 +627,11 @@ Section Proofs.
         - rewrite H. reflexivity.
         - apply orb_true_iff. right. apply forallb_forall. exact H. }
       rewrite E2, E3, E4. reflexivity.
-    - assert (E2 : ok_timely seqb final p0 states aw Spins = true).
+    - assert (E2 : ok_timely seqb final value p0 lib states aw Spins = true).
       { apply ok_timely_intro.
         - intros k Hk H1 H2. destruct (F1 k Hk H1 H2) as [t [_ E]]. discriminate.
-        - intros k Hk Hall. destruct (F1b k Hk Hall) as [t [_ E]]. discriminate. }
+        - intros k Hk Hall. destruct (F1b k Hk Hall) as [t [_ E]]. discriminate.
+        - intros Hl k Hk Hall. destruct (F1c Hl k Hk Hall) as [t [_ E]]. discriminate. }
       assert (E3 : ok_timeout T (@Spins state) = true).
       { unfold ok_timeout. destruct T as [[|t0]|]; try reflexivity.
         destruct (F2 t0 eq_refl) as [t [_ E]]. discriminate. }
@@ -652,7 +686,7 @@ Section Proofs.
     awaited_tasks tab u = Some aw ->
     horizon aw + 2 <= fuel ->
     (forall t0, T = Some t0 -> t0 + 2 <= fuel) ->
-    clauses seqb final value 1 (as_list u) (norm final r) T term (Some aw)
+    clauses seqb final value 1 true (as_list u) (norm final r) T term (Some aw)
             (wait_tasks seqb final value r T term fuel tab u) = [true; true; true; true; true].
   Proof.
     intros Ha Hfuel HT. destruct (check_val_some (norm final r)) as [v Hv].
@@ -677,6 +711,17 @@ Section Proofs.
       + intros tr Htr. destruct (Hall tr Htr) as [j [Hj Hs]]. exists j. split; [lia|].
         apply (wt_keep_false_of_sat _ _ _ _ Hv). exact Hs.
       + exists t. split; [lia | exact E].
+    - (* reached: every awaited task shows at a poll 1..k a state that is requested,
+         later than a requested one, or final *)
+      intros _ k Hk Hall. destruct aw as [|x aw0] eqn:Eaw.
+      { exists 0. split; [lia|]. rewrite wt_loop_eq. reflexivity. }
+      rewrite <- Eaw in *.
+      assert (Hk1 : 1 <= k).
+      { destruct (Hall x) as [j [Hj _]]; [rewrite Eaw; left; reflexivity | lia]. }
+      destruct (wt_exit_each fuel v T term k aw 0) as [t [Ht E]]; [lia | lia | |].
+      + intros tr Htr. destruct (Hall tr Htr) as [j [Hj Hs]]. exists j. split; [lia|].
+        apply (wt_keep_false_of_passed _ _ _ _ Hv). exact Hs.
+      + exists t. split; [lia | exact E].
     - intros t0 ->. specialize (HT _ eq_refl).
       destruct (wt_timeout fuel v term t0 aw 0) as [t [Ht E]]; [lia | lia |].
       exists t. split; [lia | exact E].
@@ -689,7 +734,7 @@ Section Proofs.
     awaited_pilots seqb final tab u = Some aw ->
     horizon aw + 2 <= fuel ->
     (forall t0, T = Some t0 -> t0 + 2 <= fuel) ->
-    clauses seqb final value 0 (as_list u) (norm final r) T term (Some aw)
+    clauses seqb final value 0 false (as_list u) (norm final r) T term (Some aw)
             (wait_pilots seqb final r T term fuel tab u) = [true; true; true; true; true].
   Proof.
     intros Ha Hfuel HT. rewrite (wait_pilots_unfold _ _ _ _ _ _ _ Ha).
@@ -705,6 +750,7 @@ Section Proofs.
       + intros tr Htr. destruct (Hall tr Htr) as [j [Hj Hs]]. exists j. split; [lia|].
         apply wp_keep_false_iff. exact Hs.
       + exists t. split; [lia | exact E].
+    - discriminate.
     - intros t0 ->. specialize (HT _ eq_refl).
       destruct (wp_timeout fuel (norm final r) term t0 aw 0) as [t [Ht E]]; [lia | lia |].
       exists t. split; [lia | exact E].
@@ -741,6 +787,27 @@ Section Proofs.
     destruct (wt_exit_each fuel cv T term k aw 0) as [t [Ht E]]; [lia | lia | |].
     - intros tr Htr. destruct (Hall tr Htr) as [j [Hj Hs]]. exists j. split; [lia|].
       apply (wt_keep_false_of_sat _ _ _ _ Hv). exact Hs.
+    - rewrite E. destruct (ret_states_ok (as_list u) aw t (awaited_one_tasks _ _ _ Ha)) as [v [H1 H2]].
+      exists v, t. split; [lia|]. split; assumption.
+  Qed.
+
+  (* "reached": every awaited task shows at some tick 1 <= j <= k a state that
+     is requested, LATER than a requested state, or final (it may have been past
+     the awaited state when the call began, or have jumped over it)
+     ==> wait_tasks has returned by tick k, with the actual states *)
+  Theorem wait_tasks_returns_when_reached r T term fuel (tab : table) u (aw : list traj) k :
+    awaited_tasks tab u = Some aw -> 1 <= k <= fuel ->
+    (forall tr, In tr aw -> exists j, 1 <= j <= k /\
+        passed seqb final value (norm final r) (at_ tr j) = true) ->
+    exists v t, t <= k /\
+      wait_tasks seqb final value r T term fuel tab u = Returned v t /\
+      ok_truthful seqb (as_list u) aw (Returned v t) = true.
+  Proof.
+    intros Ha Hk Hall. destruct (check_val_some (norm final r)) as [cv Hv].
+    rewrite (wait_tasks_unfold _ _ _ _ _ _ _ _ Ha Hv).
+    destruct (wt_exit_each fuel cv T term k aw 0) as [t [Ht E]]; [lia | lia | |].
+    - intros tr Htr. destruct (Hall tr Htr) as [j [Hj Hs]]. exists j. split; [lia|].
+      apply (wt_keep_false_of_passed _ _ _ _ Hv). exact Hs.
     - rewrite E. destruct (ret_states_ok (as_list u) aw t (awaited_one_tasks _ _ _ Ha)) as [v [H1 H2]].
       exists v, t. split; [lia|]. split; assumption.
   Qed.
